@@ -305,19 +305,9 @@ Definition add_attribute (root : bool) (q : qname) (v : wvalue) (s : wstate) : w
 Definition set_data (v : wvalue) (s : wstate) : wres :=
   let (enc, m) := encode_data (w_map s) v in
   let (s1, out) := flush_start (match enc with None => true | Some _ => false end) (set_map s m) in
-  match enc with
-  | Some ((_ :: _) as txt) =>
-      if w_in_tail s1 then
-        ({| w_parents := w_parents s1; w_open := w_open s1; w_map := w_map s1; w_pending := None;
-            w_attrs := w_attrs s1; w_in_tail := true; w_tail := Some txt; w_pp := w_pp s1 |}, out, None)
-      else
-        ({| w_parents := w_parents s1; w_open := w_open s1; w_map := w_map s1; w_pending := None;
-            w_attrs := w_attrs s1; w_in_tail := true; w_tail := w_tail s1; w_pp := w_pp s1 |},
-         out ++ [SChars txt], None)
-  | _ =>
-      ({| w_parents := w_parents s1; w_open := w_open s1; w_map := w_map s1; w_pending := w_pending s1;
-          w_attrs := w_attrs s1; w_in_tail := true; w_tail := w_tail s1; w_pp := w_pp s1 |}, out, None)
-  end.
+  ({| w_parents := w_parents s1; w_open := w_open s1; w_map := w_map s1; w_pending := w_pending s1;
+      w_attrs := w_attrs s1; w_in_tail := true; w_tail := w_tail s1; w_pp := w_pp s1 |},
+   out ++ (match enc with Some ((_ :: _) as txt) => [SChars txt] | _ => [] end), None).
 
 Definition end_tag (q : qname) (s : wstate) : wres :=
   let (s1, out0) := flush_start true s in
@@ -785,16 +775,6 @@ Definition user_prefix_legal (e : option str * str) : bool :=
 Definition user_prefixes_legal (user : nsmap) : bool := forallb user_prefix_legal (serializer_ns_map user).
 
 (* -- scoped clauses ------------------------------------------------------------------------ *)
-(* two data events in a row: the second one is written after the end tag *)
-Fixpoint adj_ok (prev_data : bool) (ks : list item) : bool :=
-  match ks with
-  | [] => true
-  | IData v :: r => negb (prev_data && negb (value_falsy v)) && adj_ok true r
-  | INode _ _ _ :: r => adj_ok false r
-  end.
-Definition t_no_adjacent : item -> bool := all_nodes (fun _ _ ks => adj_ok false ks) (fun _ => true).
-Definition no_adjacent_data (evs : list wevent) : bool := on_tree t_no_adjacent evs.
-
 Definition has_ns_qname (v : wvalue) : bool :=
   existsb (fun q => match fst q with Some (_ :: _) => true | _ => false end) (value_qnames v).
 (* a QName in character data after the start tag was written may need a prefix that
@@ -858,7 +838,7 @@ Definition user_map_ok (cfg : wconfig) (user : nsmap) (evs : list wevent) : bool
   user_prefixes_legal user && default_qname_ok user evs.
 
 Definition events_ok (cfg : wconfig) (evs : list wevent) : bool :=
-  names_ok evs && texts_ok cfg evs && no_adjacent_data evs
+  names_ok evs && texts_ok cfg evs
   && no_late_qname_data evs && nil_content_ok evs && no_clark_datatype_text evs && events_wf evs.
 
 Definition writer_guard (cfg : wconfig) (user : nsmap) (evs : list wevent) : bool :=
@@ -883,7 +863,7 @@ Definition expected (cfg : wconfig) (evs : list wevent) : option enode :=
 Definition clause_vector (cfg : wconfig) (user : nsmap) (evs : list wevent) : list bool :=
   [ user_prefixes_legal user;
     default_qname_ok user evs; names_ok evs; texts_ok cfg evs;
-    no_adjacent_data evs; no_late_qname_data evs; nil_content_ok evs; no_clark_datatype_text evs;
+    no_late_qname_data evs; nil_content_ok evs; no_clark_datatype_text evs;
     events_wf evs ].
 
 (* C03 for one input, native writer: the output is well-formed, namespace-well-formed and
